@@ -3,6 +3,7 @@
 Every entry is a textual edit of the real source.  `expect` says what the named property's check must do:
   'violation' -> exit 1        (a property-breaking change must be reported)
   'ok'        -> exit 0        (a harmless edit must NOT raise an alarm, and should not go undecided)
+  'no-alarm'  -> exit 0 or 2   (a harmless edit that leaves the Verus-readable subset: undecided is fine, an alarm is not)
 A miss is reported as a failure of the SELFTEST (exit 2), never as a property violation.
 Scratch worktrees live under /var/tmp and are removed afterwards.
 """
@@ -22,8 +23,9 @@ REPO = '/repo'
 M = []
 
 
-def mut(id, prop, file, old, new, expect='violation', kani=False, note=''):
-    M.append(dict(id=id, prop=prop, file=file, old=old, new=new, expect=expect, kani=kani, note=note))
+def mut(id, prop, file, old, new, expect='violation', kani=False, note='', more=()):
+    # `more`: further (old, new) replacements in the same file (an edit with two sites)
+    M.append(dict(id=id, prop=prop, file=file, old=old, new=new, expect=expect, kani=kani, note=note, more=list(more)))
 
 
 # ---------------------------------------------------------------- C01 framing
@@ -141,6 +143,18 @@ mut('h-rep-send-match', 'C07', 'src/rep.rs', "                    if let Some(en
 mut('h-fq-reorder-putback', 'C14', 'src/fair_queue.rs', "                    inner.ready_queue.push(ReadyEvent {\n                        priority,\n                        key: event.key.clone(),\n                    });\n                    inner.streams.insert(event.key, io_stream);", "                    let again = ReadyEvent {\n                        priority,\n                        key: event.key.clone(),\n                    };\n                    inner.streams.insert(event.key, io_stream);\n                    inner.ready_queue.push(again);", expect='ok')
 mut('h-rr-early-continue', 'C10', 'src/backend.rs', "            let send_result = match self.peers.get_async(&next_peer_id).await {\n                Some(mut peer) => peer.send_queue.send(message).await,\n                None => continue,\n            };", "            let mut peer = match self.peers.get_async(&next_peer_id).await {\n                Some(peer) => peer,\n                None => continue,\n            };\n            let send_result = peer.send_queue.send(message).await;", expect='ok')
 mut('h-compat-local', 'C04', 'src/lib.rs', "        let row_index = *self as usize;\n        let col_index = other as usize;\n        COMPATIBILITY_MATRIX[row_index * 12 + col_index] != 0", "        let row = *self as usize;\n        let col = other as usize;\n        COMPATIBILITY_MATRIX[row * 12 + col] != 0", expect='ok')
+mut('c11-pub-dup', 'C11', 'src/pub.rs', "for sub_filter in &subscriber.subscriptions {", "for sub_filter in &subscriber.subscriptions.clone() {", expect='any-nonzero', more=[("                    }\n                    break;\n                }\n            }\n            iter =", "                    }\n                }\n            }\n            iter =")], note='iterating over a copy and not stopping at the first match: a subscriber with two matching subscriptions gets the message twice (without the copy the borrow checker rejects the missing break)')
+mut('c11-pub-prefix-strict', 'C11', 'src/pub.rs', "if sub_filter.len() <= message.get(0).unwrap().len()", "if sub_filter.len() < message.get(0).unwrap().len()", note='a subscription equal to the whole first frame no longer matches')
+mut('c11-xpub-empty-sub', 'C11', 'src/xpub.rs', "if sub_filter.len() <= message.get(0).unwrap().len()", "if !sub_filter.is_empty() && sub_filter.len() <= message.get(0).unwrap().len()", note='the empty subscription no longer matches everything')
+mut('c11-pub-second-frame', 'C11', 'src/pub.rs', "&& sub_filter.as_slice() == &message.get(0).unwrap()[0..sub_filter.len()]", "&& sub_filter.as_slice() == &message.get(message.len() - 1).unwrap()[0..sub_filter.len()]", expect='any-nonzero', note='filter applied to the LAST frame')
+mut('c11-pub-cancel-wrong', 'C11', 'src/pub.rs', "                        entry.subscriptions.remove(index);", "                        entry.subscriptions.remove(0);", expect='any-nonzero', note='CANCEL removes the oldest subscription instead of the equal one')
+mut('c11-pub-sub-dedup', 'C11', 'src/pub.rs', "                    entry.subscriptions.push(Vec::from(&data[1..]));", "                    if entry.subscriptions.is_empty() {\n                        entry.subscriptions.push(Vec::from(&data[1..]));\n                    }", note='only the first subscription of a peer is recorded')
+mut('c11-xpub-cancel-keeps', 'C11', 'src/xpub.rs', "                        entry.subscriptions.remove(index);", "                        let _ = index;", expect='any-nonzero', note='CANCEL is ignored (the lemma hint is anchored on the removed statement: undecided)')
+mut('h-c11-swap-remove', 'C11', 'src/pub.rs', "                        entry.subscriptions.remove(index);", "                        entry.subscriptions.swap_remove(index);", expect='no-alarm', note='HARMLESS: the order of subscriptions is not observable (the contract is over the multiset)')
+mut('h-c11-insert-front', 'C11', 'src/pub.rs', "                    entry.subscriptions.push(Vec::from(&data[1..]));", "                    entry.subscriptions.insert(0, Vec::from(&data[1..]));", expect='no-alarm', note='HARMLESS: order not observable')
+mut('h-c11-rename', 'C11', 'src/pub.rs', "sub_filter", "prefix", expect='no-alarm', note='HARMLESS rename (the loop hints name the loop variable: undecided at worst)')
+mut('h-req-closure', 'C07', 'src/req.rs', "        if self.current_request.is_some() {", "        if self.current_request.as_ref().map(|p| true).unwrap_or(false) {", expect='no-alarm', note='HARMLESS but through an un-annotated closure: Verus forgets the result, so the failed obligations must be reported as undecided (shape guard), never as a violation')
+mut('h-rr-extra-loop', 'C10', 'src/backend.rs', "        // In normal scenario this will always be only 1 iteration", "        let mut spins = 0u8;\n        while spins < 3 {\n            spins += 1;\n        }\n        // In normal scenario this will always be only 1 iteration", expect='no-alarm', note='HARMLESS extra loop the contracts carry no invariant for: undecided at worst')
 
 
 def run_one(m, keep=False):
@@ -148,7 +162,14 @@ def run_one(m, keep=False):
     d = tempfile.mkdtemp(prefix='zmq-selftest-', dir='/var/tmp')
     wt = os.path.join(d, 'repo')
     try:
-        subprocess.run(['git', '-C', REPO, 'worktree', 'add', '-q', '--detach', wt, 'HEAD'], check=True, capture_output=True)
+        for attempt in range(8):
+            # concurrent `git worktree add` calls contend for a lock in /repo/.git: retry
+            wr = subprocess.run(['git', '-C', REPO, 'worktree', 'add', '-q', '--detach', wt, 'HEAD'], capture_output=True)
+            if wr.returncode == 0:
+                break
+            time.sleep(0.5 + attempt)
+        else:
+            raise RuntimeError('git worktree add failed: ' + wr.stderr.decode()[:300])
         # the working tree of /repo may carry uncommitted edits: copy tracked sources over
         subprocess.run(['rsync', '-a', '--exclude', 'target', '--exclude', '.git', REPO + '/src/', wt + '/src/'], check=True)
         p = os.path.join(wt, m['file'])
@@ -156,6 +177,10 @@ def run_one(m, keep=False):
         if s.count(m['old']) < 1:
             return m, 'catalogue-stale', 'pattern not found in %s' % m['file'], time.time() - t0, ''
         s = s.replace(m['old'], m['new']) if m['id'].startswith('h-') or m['id'] in ('c01-boundary-256-both',) else s.replace(m['old'], m['new'], 1)
+        for (o2, n2) in m.get('more', []):
+            if s.count(o2) < 1:
+                return m, 'catalogue-stale', 'pattern not found in %s' % m['file'], time.time() - t0, ''
+            s = s.replace(o2, n2, 1)
         open(p, 'w').write(s)
         env = dict(os.environ, VERIF_REPO=wt, VERIF_EVIDENCE_DIR=os.path.join(d, 'evidence'), VERIF_REPLAY_DIR=os.path.join(d, 'replay'),
                    VERIF_WORK_DIR=os.path.join(d, 'work'))
@@ -168,6 +193,8 @@ def run_one(m, keep=False):
             ok = code == 1 and 'VIOLATION property=%s' % m['prop'] in out
         elif m['expect'] == 'ok':
             ok = code == 0
+        elif m['expect'] == 'no-alarm':
+            ok = code in (0, 2) and 'VIOLATION' not in out
         else:
             ok = code != 0
         return m, ('pass' if ok else 'MISS'), 'exit %d' % code, time.time() - t0, out
